@@ -314,6 +314,30 @@ pub fn check_affix(case: &AffixCase, st: &mut Stats) -> Result<(), String> {
             short(&squash(&exp), 400)
         ));
     }
+    // a definition term is emphasised text on lines of its own: `<dl><dt>X</dt></dl>` renders like
+    // `<p><em>X</em></p>` (the affixes on the same lines as the text they surround)
+    {
+        let mut ser = Ser::new();
+        ser.inlines(&case.inlines);
+        let x = ser.out;
+        let as_dt = render(&cfg, format!("<dl><dt>{}</dt></dl>", x).as_bytes(), case.width);
+        let as_em = render(&cfg, format!("<p><em>{}</em></p>", x).as_bytes(), case.width);
+        if let (Rend::Ok(a), Rend::Ok(b)) = (&as_dt, &as_em) {
+            let core = |s: &str| -> Vec<String> {
+                let v: Vec<String> = s.lines().map(|l| l.trim_end().to_string()).collect();
+                let first = v.iter().position(|l| !l.is_empty()).unwrap_or(v.len());
+                let last = v.iter().rposition(|l| !l.is_empty()).map(|i| i + 1).unwrap_or(first);
+                v[first..last].to_vec()
+            };
+            st.class("dt_as_em_compared");
+            if core(a) != core(b) {
+                return Err(format!(
+                    "a <dt> does not render like the same content in <em> (w={})\n strings={:?}\n content={}\n dt={:?}\n em={:?}",
+                    case.width, case.strings, short(&x, 600), core(a), core(b)
+                ));
+            }
+        }
+    }
     if !case.strings.is_ascii() {
         st.nontrivial(case);
     }
